@@ -1,4 +1,6 @@
 
+val negb : bool -> bool
+
 type nat =
 | O
 | S of nat
@@ -7,26 +9,70 @@ val length : 'a1 list -> nat
 
 val app : 'a1 list -> 'a1 list -> 'a1 list
 
-type comparison =
-| Eq
-| Lt
-| Gt
+type uint =
+| Nil
+| D0 of uint
+| D1 of uint
+| D2 of uint
+| D3 of uint
+| D4 of uint
+| D5 of uint
+| D6 of uint
+| D7 of uint
+| D8 of uint
+| D9 of uint
 
-val compOpp : comparison -> comparison
+type uint0 =
+| Nil0
+| D10 of uint0
+| D11 of uint0
+| D12 of uint0
+| D13 of uint0
+| D14 of uint0
+| D15 of uint0
+| D16 of uint0
+| D17 of uint0
+| D18 of uint0
+| D19 of uint0
+| Da of uint0
+| Db of uint0
+| Dc of uint0
+| Dd of uint0
+| De of uint0
+| Df of uint0
+
+type uint1 =
+| UIntDecimal of uint
+| UIntHexadecimal of uint0
 
 val add : nat -> nat -> nat
 
-val nth : nat -> 'a1 list -> 'a1 -> 'a1
+val sub : nat -> nat -> nat
 
-val rev : 'a1 list -> 'a1 list
+val tail_add : nat -> nat -> nat
 
-val map : ('a1 -> 'a2) -> 'a1 list -> 'a2 list
+val tail_addmul : nat -> nat -> nat -> nat
 
-val skipn : nat -> 'a1 list -> 'a1 list
+val tail_mul : nat -> nat -> nat
 
-val seq : nat -> nat -> nat list
+val of_uint_acc : uint -> nat -> nat
 
-val repeat : 'a1 -> nat -> 'a1 list
+val of_uint : uint -> nat
+
+val of_hex_uint_acc : uint0 -> nat -> nat
+
+val of_hex_uint : uint0 -> nat
+
+val of_num_uint : uint1 -> nat
+
+module Nat :
+ sig
+  val eqb : nat -> nat -> bool
+
+  val leb : nat -> nat -> bool
+
+  val ltb : nat -> nat -> bool
+ end
 
 type positive =
 | XI of positive
@@ -50,33 +96,7 @@ module Pos :
 
   val add_carry : positive -> positive -> positive
 
-  val pred_double : positive -> positive
-
-  val pred_N : positive -> n
-
   val mul : positive -> positive -> positive
-
-  val iter : ('a1 -> 'a1) -> 'a1 -> positive -> 'a1
-
-  val div2 : positive -> positive
-
-  val div2_up : positive -> positive
-
-  val compare_cont : comparison -> positive -> positive -> comparison
-
-  val compare : positive -> positive -> comparison
-
-  val eqb : positive -> positive -> bool
-
-  val coq_Nsucc_double : n -> n
-
-  val coq_Ndouble : n -> n
-
-  val coq_lor : positive -> positive -> positive
-
-  val coq_land : positive -> positive -> n
-
-  val ldiff : positive -> positive -> n
 
   val iter_op : ('a1 -> 'a1 -> 'a1) -> positive -> 'a1 -> 'a1
 
@@ -87,54 +107,28 @@ module Pos :
 
 module N :
  sig
-  val succ_pos : n -> positive
-
   val add : n -> n -> n
 
   val mul : n -> n -> n
-
-  val coq_lor : n -> n -> n
-
-  val ldiff : n -> n -> n
 
   val to_nat : n -> nat
 
   val of_nat : nat -> n
  end
 
+val nth_error : 'a1 list -> nat -> 'a1 option
+
+val existsb : ('a1 -> bool) -> 'a1 list -> bool
+
+val filter : ('a1 -> bool) -> 'a1 list -> 'a1 list
+
+val firstn : nat -> 'a1 list -> 'a1 list
+
+val skipn : nat -> 'a1 list -> 'a1 list
+
 module Z :
  sig
-  val double : z -> z
-
-  val succ_double : z -> z
-
-  val pred_double : z -> z
-
-  val pos_sub : positive -> positive -> z
-
-  val add : z -> z -> z
-
   val opp : z -> z
-
-  val sub : z -> z -> z
-
-  val mul : z -> z -> z
-
-  val pow_pos : z -> positive -> z
-
-  val pow : z -> z -> z
-
-  val compare : z -> z -> comparison
-
-  val leb : z -> z -> bool
-
-  val ltb : z -> z -> bool
-
-  val geb : z -> z -> bool
-
-  val gtb : z -> z -> bool
-
-  val eqb : z -> z -> bool
 
   val to_nat : z -> nat
 
@@ -143,107 +137,170 @@ module Z :
   val of_nat : nat -> z
 
   val of_N : n -> z
-
-  val pos_div_eucl : positive -> z -> z * z
-
-  val div_eucl : z -> z -> z * z
-
-  val div : z -> z -> z
-
-  val modulo : z -> z -> z
-
-  val div2 : z -> z
-
-  val shiftl : z -> z -> z
-
-  val shiftr : z -> z -> z
-
-  val coq_land : z -> z -> z
  end
 
-val wrap32 : z -> z
+val usq_page_size : nat
 
-val tABLE : z list
+val usq_valid_init : nat
 
-val iNV_TABLE : z list
+val pcq_empty_init : nat -> nat
 
-val enc_val0 : z
+val pcq_used_init : nat -> nat
 
-val enc_valb0 : z
+val ring_blocks : nat
 
-val enc_shift : z
+val ring_block_size : nat
 
-val enc_valb_add : z
+val ring_output_init : nat -> nat
 
-val enc_loop_bound : z
+val ring_trash_init : nat -> nat
 
-val enc_mask : z
+val py_pending : nat list -> nat -> bool
 
-val enc_valb_sub : z
+val py_step :
+  ('a1 -> nat -> 'a1 option) -> ('a1 -> nat -> bool) -> ('a1 * nat list) ->
+  nat -> ('a1 * nat list) option
 
-val enc_tail_bound : z
+val upd : (nat -> 'a1) -> nat -> 'a1 -> nat -> 'a1
 
-val enc_tail_shl : z
+type upage =
+| UUnalloc
+| UFreed
+| ULive of (nat -> z option) * nat option
 
-val enc_tail_add : z
+type uerr =
+| UUseAfterFree
+| UNullNext
+| UReadUnwritten
 
-val enc_tail_mask : z
+type uppc =
+| UPLink
+| UPWrite
+| UPPost
 
-val enc_pad_mod : z
+type ucpc =
+| UCWait
+| UCSwitch
+| UCRead
 
-val pad_char : z
+type ustate = { u_valid : nat; u_heap : (nat -> upage); u_nalloc : nat;
+                u_fill : nat; u_fidx : nat; u_rd : nat; u_ridx : nat;
+                u_ppc : uppc; u_cpc : ucpc; u_todo : z list; u_want : 
+                nat; u_got : z list; u_err : uerr option }
 
-val dec_val0 : z
+val uempty_entries : nat -> z option
 
-val dec_valb0 : z
+val usq_init : nat -> z list -> nat -> ustate
 
-val dec_pad_char : z
+val u_fail : ustate -> uerr -> ustate
 
-val dec_reject : z
+val usq_step_prod : nat -> ustate -> ustate option
 
-val dec_shift : z
+val usq_step_cons : nat -> ustate -> ustate option
 
-val dec_valb_add : z
+val usq_step : nat -> ustate -> nat -> ustate option
 
-val dec_out_bound : z
+val usq_tag : ustate -> nat -> nat
 
-val dec_mask : z
+val usq_finished : ustate -> nat -> bool
 
-val dec_valb_sub : z
+type qppc =
+| QPWait
+| QPLock
+| QPWrite
+| QPUnlock
+| QPPost
 
-val tbl : z -> z
+type qcpc =
+| QCWait
+| QCLock
+| QCRead
+| QCUnlock
+| QCPost
 
-val inv : z -> z
+type qthread =
+| QProd of qppc * z list
+| QCons of qcpc * nat * z list
 
-val sel : z -> z -> z -> z
+type qstate = { q_empty : nat; q_used : nat; q_slots : (nat -> z);
+                q_pat : nat; q_cat : nat; q_pmx : bool; q_cmx : bool;
+                q_threads : qthread list }
 
-val enc_drain : nat -> z -> z -> (z list * z) option
+val list_upd : 'a1 list -> nat -> 'a1 -> 'a1 list
 
-val drain_fuel : nat
+val q_default : z
 
-val enc_bytes : z list -> z -> z -> ((z list * z) * z) option
+val pcq_init : nat -> nat -> qthread list -> qstate
 
-val enc_pad : nat -> z list
+val q_next : nat -> nat -> nat
 
-val base64_encode : z list -> z list option
+val q_set_thread : qstate -> nat -> qthread -> qthread list
 
-type dres =
-| DOk of z list
-| DBadChar of z
-| DLengthError
+val pcq_step : nat -> qstate -> nat -> qstate option
 
-val count_padding_rev : z list -> nat
+val pcq_tag : qstate -> nat -> nat
 
-val count_padding : z list -> nat
+val qthread_finished : qthread -> bool
 
-val dec_loop : z list -> z -> z -> dres
+val pcq_finished : qstate -> nat -> bool
 
-val base64_decode : z list -> dres
+type rppc =
+| RPCtorWait
+| RPSpawn
+| RPFill
+| RPRest
+| RPSpillPost of bool
+| RPSpillWait of bool
+| RPPoisonPost
+| RPPoisonWait
+| RPJoin
+| RPLeasePost
+| RPDone
 
-val b64_alphabet : z list
+type rcpc =
+| RCNotStarted
+| RCBegin
+| RCWait
+| RCWrite
+| RCPostTrash
+| RCExitPost
+| RCFlush
+| RCEnd
+| RCDone
 
-val alpha : z -> z
+type rstate = { r_out : nat; r_trash : nat; r_data : (nat -> z list);
+                r_size : (nat -> nat); r_pi : nat; r_ci : nat; r_cur : 
+                nat; r_ppc : rppc; r_cpc : rcpc; r_prog : z list list;
+                r_pend : z list; r_file : z list; r_wsizes : nat list;
+                r_flushes : nat }
 
-val rfc4648 : z list -> z list
+val ring_init : nat -> nat -> nat -> z list list -> rstate
 
-val strip_padding : z list -> z list
+val r_next : nat -> nat -> nat
+
+val r_loop_test : nat -> nat -> z list -> rppc
+
+val r_set_p :
+  rstate -> (nat -> z list) -> (nat -> nat) -> nat -> nat -> rppc -> z list
+  list -> z list -> rstate
+
+val r_dtor : nat -> rstate -> (nat -> z list) -> nat -> rstate
+
+val r_next_write : nat -> nat -> rstate -> (nat -> z list) -> nat -> rstate
+
+val r_set_sem : rstate -> nat -> nat -> rppc -> rstate
+
+val ring_step_owner : nat -> nat -> rstate -> rstate option
+
+val r_set_c :
+  rstate -> nat -> nat -> nat -> rcpc -> z list -> nat list -> nat -> rstate
+
+val ring_step_writer : nat -> rstate -> rstate option
+
+val ring_step : nat -> nat -> rstate -> nat -> rstate option
+
+val ring_tag : rstate -> nat -> nat
+
+val ring_finished : rstate -> nat -> bool
+
+val ring_started : rstate -> nat -> bool
